@@ -1706,17 +1706,225 @@ Proof.
   rewrite forallb_forall in H. specialize (H _ Hq). rewrite Hc in H. destruct (covers q p); auto.
 Qed.
 
-Lemma step_Inv h st lb st' : strict h -> Inv h st -> step h st lb = Some st' -> Inv h st'.
+
+(** ** The per-target write mutex *)
+
+Record LInv (st : state) : Prop := {
+  l_len : List.length (st_locks st) = List.length (st_feeds st);
+  l_feed : forall w it, In it (feed_of st w) -> exists t, lock_of st w = Some t /\ item_target st it = Some t;
+  l_excl : forall w w' t, w <> w' -> lock_of st w = Some t -> lock_of st w' = Some t -> False;
+}.
+
+Lemma feed_of_set_lock st w l x : feed_of (set_lock st w l) x = feed_of st x.
+Proof. reflexivity. Qed.
+
+Lemma GInv_set_lock st w l : GInv st -> GInv (set_lock st w l).
+Proof. intros [a b c d e f g i j]. constructor; auto. Qed.
+
+Lemma lock_of_set_lock_eq st w l : (w < List.length (st_locks st))%nat -> lock_of (set_lock st w l) w = l.
 Proof.
-  intros Hs I Hstep. assert (G := proj1 I). destruct lb as [w o|w|s|s|s|s p0|s|s|s|s|s|s]; cbn in Hstep.
+  intros H. unfold lock_of, set_lock. cbn. apply nth_error_nth. rewrite nth_error_upd_nth_eq.
+  destruct (nth_error (st_locks st) w) eqn:E; [reflexivity|]. apply nth_error_None in E. lia.
+Qed.
+
+Lemma lock_of_set_lock_neq st w w' l : w <> w' -> lock_of (set_lock st w l) w' = lock_of st w'.
+Proof.
+  intros H. unfold lock_of, set_lock. cbn.
+  destruct (nth_error (st_locks st) w') eqn:E.
+  - rewrite (nth_error_nth _ _ _ E). apply nth_error_nth. rewrite nth_error_upd_nth_neq; auto.
+  - rewrite !nth_overflow; auto.
+    + apply nth_error_None. exact E.
+    + rewrite length_upd_nth. apply nth_error_None. exact E.
+Qed.
+
+(** who may take the mutex of [t] finds nobody else announcing on [t] *)
+Lemma may_lock_others st w t :
+  LInv st -> may_lock st w t = true ->
+  forall w' it, w' <> w -> In it (feed_of st w') -> item_target st it <> Some t.
+Proof.
+  intros L Hm w' it Hne Hin Ht. destruct (l_feed _ L _ _ Hin) as (t' & Hl & Ht'). rewrite Ht in Ht'. inversion Ht'; subst t'.
+  unfold may_lock in Hm. destruct (lock_of st w) as [t0|] eqn:Hw.
+  - apply String.eqb_eq in Hm. subst t0. eapply (l_excl _ L w w'); eauto.
+  - apply negb_true_iff in Hm. unfold held_by_other in Hm.
+    assert (existsb (fun w'0 => negb (Nat.eqb w'0 w) &&
+              match lock_of st w'0 with Some t' => String.eqb t t' | None => false end)
+              (seq 0 (List.length (st_locks st))) = true); [|congruence].
+    apply existsb_exists. exists w'. split.
+    + apply in_seq. rewrite (l_len _ L). split; [lia|]. cbn. eapply feed_of_lt; eauto.
+    + rewrite Hl, String.eqb_refl. apply andb_true_iff. split; auto. apply negb_true_iff, Nat.eqb_neq. exact Hne.
+Qed.
+
+Lemma may_lock_excl st w t :
+  LInv st -> may_lock st w t = true -> forall w', w' <> w -> lock_of st w' <> Some t.
+Proof.
+  intros L Hm w' Hne Hl. unfold may_lock in Hm. destruct (lock_of st w) as [t0|] eqn:Hw.
+  - apply String.eqb_eq in Hm. subst t0. eapply (l_excl _ L w w'); eauto.
+  - apply negb_true_iff in Hm. unfold held_by_other in Hm.
+    assert (existsb (fun w'0 => negb (Nat.eqb w'0 w) &&
+              match lock_of st w'0 with Some t' => String.eqb t t' | None => false end)
+              (seq 0 (List.length (st_locks st))) = true); [|congruence].
+    apply existsb_exists. exists w'. split.
+    + apply in_seq. split; [lia|]. cbn. unfold lock_of in Hl.
+      destruct (Nat.lt_ge_cases w' (List.length (st_locks st))); auto. rewrite nth_overflow in Hl by assumption. discriminate.
+    + rewrite Hl, String.eqb_refl. apply andb_true_iff. split; auto. apply negb_true_iff, Nat.eqb_neq. exact Hne.
+Qed.
+
+(** what a tree write does to the pending lists, seen from the locks *)
+Lemma write_effect h st w o st' r :
+  GInv st -> nth_error (st_feeds st) w = Some [] -> write h st w o = Some (st', r) ->
+  st_locks st' = st_locks st /\
+  List.length (st_feeds st') = List.length (st_feeds st) /\
+  (forall it, In it (feed_of st' w) -> item_target st' it = Some (wop_target o)) /\
+  (forall w' it, w' <> w -> In it (feed_of st' w') -> In it (feed_of st w') /\ item_target st' it = item_target st it).
+Proof.
+  intros G Hnth Hw.
+  assert (Hlt : (w < List.length (st_feeds st))%nat) by (apply nth_error_Some; congruence).
+  assert (Hempty := nth_error_feed_of _ _ _ Hnth).
+  assert (SAME : st' = st ->
+     st_locks st' = st_locks st /\ List.length (st_feeds st') = List.length (st_feeds st) /\
+     (forall it, In it (feed_of st' w) -> item_target st' it = Some (wop_target o)) /\
+     (forall w' it, w' <> w -> In it (feed_of st' w') -> In it (feed_of st w') /\ item_target st' it = item_target st it)).
+  { intros ->. repeat split; auto. intros it Hin. rewrite Hempty in Hin. contradiction. }
+  (* the generic shape: pending list of w replaced, stores extended *)
+  assert (GEN : forall lv dl tr f,
+     st' = mkState lv dl tr (set_feed st w f) (st_subs st) (st_locks st) ->
+     ext st st' ->
+     (forall it, In it f -> item_target st' it = Some (wop_target o)) ->
+     st_locks st' = st_locks st /\ List.length (st_feeds st') = List.length (st_feeds st) /\
+     (forall it, In it (feed_of st' w) -> item_target st' it = Some (wop_target o)) /\
+     (forall w' it, w' <> w -> In it (feed_of st' w') -> In it (feed_of st w') /\ item_target st' it = item_target st it)).
+  { intros lv dl tr f -> E Hf. split; [reflexivity|]. split; [cbn; unfold set_feed; apply length_upd_nth|]. split.
+    - intros it Hin. rewrite feed_of_set_feed_eq in Hin by assumption. auto.
+    - intros w' it Hne Hin. rewrite feed_of_set_feed_neq in Hin by auto. split; auto.
+      destruct (wf_exists _ G _ _ (feed_of_In _ _ _ Hin) Hin) as [d Hd]. eapply ext_target; eauto. }
+  destruct o as [p v ts|d ts order|d]; cbn in Hw.
+  - destruct (negb _); [discriminate|]. destruct (h_agree h && negb _); [discriminate|].
+    destruct (tlookup p (st_tree st)) as [l|] eqn:Hl.
+    + destruct (leaf_cont st l) as [[v0 ts0]|] eqn:Hc; [|discriminate].
+      destruct (ts <? ts0); [inversion Hw; subst; apply SAME; reflexivity|].
+      destruct ((ts =? ts0) && (v =? v0)); [inversion Hw; subst; apply SAME; reflexivity|].
+      inversion Hw; subst. clear Hw. eapply GEN; [reflexivity| |].
+      * intros [l'|k|] d; cbn; auto. unfold leaf_path. cbn. rewrite leaf_path_upd. auto.
+      * intros it Hin. destruct (h_ed h && (v =? v0)); [contradiction|]. destruct Hin as [<-|[]].
+        unfold item_target. cbn. unfold leaf_path. cbn. rewrite leaf_path_upd.
+        fold (leaf_path st l). rewrite (tlookup_leaf _ _ _ G Hl). reflexivity.
+    + destruct (conflicts st p); [inversion Hw; subst; apply SAME; reflexivity|].
+      inversion Hw; subst. clear Hw. eapply GEN; [reflexivity| |].
+      * intros [l'|k|] d; cbn; auto. unfold leaf_path. cbn. apply option_map_nth_app.
+      * intros it [<-|[]]. unfold item_target. cbn. unfold leaf_path. cbn.
+        rewrite nth_error_app2 by lia. rewrite Nat.sub_diag. reflexivity.
+  - destruct (target_ok d) eqn:Hok; cbn in Hw; [|discriminate].
+    destruct (tree_locked st (target_of d)); [discriminate|].
+    inversion Hw; subst. clear Hw. eapply GEN; [reflexivity| |].
+    + intros [l'|k|] d0; cbn; auto. apply option_map_nth_app.
+    + intros it Hin. apply in_map_iff in Hin as (k & <- & Hk). apply in_seq in Hk.
+      unfold item_target. cbn. rewrite nth_error_app2 by lia.
+      destruct (nth_error (map (fun pl : path * nat => (fst pl, ts)) (reorder order (victims st d (fun c => snd c <? ts))))
+                          (k - List.length (st_dels st))) as [[pv tv]|] eqn:X.
+      * cbn. f_equal. apply nth_error_In in X. apply in_map_iff in X as ([pv' lv'] & [= <- <-] & Hin).
+        apply In_reorder in Hin. apply In_victims in Hin as [_ Hc]. symmetry. apply covers_target; auto.
+      * apply nth_error_None in X. rewrite map_length in X. lia.
+  - destruct (target_ok d && star_free d) eqn:Hok; cbn in Hw; [|discriminate].
+    apply andb_true_iff in Hok as [Hok Hsf].
+    destruct (tree_locked st (target_of d)); [discriminate|].
+    inversion Hw; subst. clear Hw. eapply GEN; [reflexivity| |].
+    + intros [l'|k|] d0; cbn; auto. apply option_map_nth_app.
+    + intros it [<-|[]]. unfold item_target. cbn. rewrite nth_error_app2 by lia. rewrite Nat.sub_diag. cbn.
+      f_equal. apply target_of_app. exact Hok.
+Qed.
+
+Lemma LInv_frame st st' :
+  st_leaves st' = st_leaves st -> st_dels st' = st_dels st -> st_feeds st' = st_feeds st ->
+  st_locks st' = st_locks st -> LInv st -> LInv st'.
+Proof.
+  destruct st as [a b c d e f0], st' as [a' b' c' d' e' f0']. cbn. intros -> -> -> -> [A B C].
+  constructor; auto.
+Qed.
+
+Lemma step_LInv h st lb st' : GInv st -> LInv st -> step h st lb = Some st' -> LInv st'.
+Proof.
+  intros G L Hstep.
+  assert (SUB : forall s f, with_sub st s f = Some st' -> LInv st').
+  { intros s f H. apply with_sub_inv in H as (sb & sb' & _ & _ & ->). apply (LInv_frame st); auto. }
+  destruct lb as [w o|w|s|s|s|s p0|s|s|s|s|s|s|w]; unfold step in Hstep; cbn in Hstep; try (eapply SUB; eauto; fail).
   - (* LWrite *)
     destruct (nth_error (st_feeds st) w) as [[|]|] eqn:Hw; try discriminate.
-    destruct Hs as [Howt Hag]. rewrite Howt in Hstep. cbn in Hstep.
-    destruct (in_flight_other st w (wop_target o)) eqn:Hifo; [discriminate|].
-    destruct (write h st w o) as [[st1 r]|] eqn:Hwr; [|discriminate]. cbn in Hstep. inversion Hstep; subst st1.
-    assert (G' : GInv st') by (eapply write_GInv; eauto; split; auto).
-    split; auto. rewrite (write_subs _ _ _ _ _ _ Hwr). intros i sb Hi He.
-    apply (write_SInv h st w o st' r sb G G' Hw Hwr). apply (proj2 I _ _ Hi He).
+    destruct (may_lock st w (wop_target o)) eqn:Hm; [|discriminate].
+    destruct (write h st w o) as [[st1 r]|] eqn:Hwr; [|discriminate]. cbn in Hstep. inversion Hstep; subst st'. clear Hstep.
+    destruct (write_effect _ _ _ _ _ _ G Hw Hwr) as (E1 & E2 & E3 & E4).
+    assert (Hlt : (w < List.length (st_locks st1))%nat).
+    { rewrite E1, (l_len _ L). apply nth_error_Some. congruence. }
+    assert (FO : forall x, feed_of (set_lock st1 w (Some (wop_target o))) x = feed_of st1 x) by reflexivity.
+    assert (IT : forall it, item_target (set_lock st1 w (Some (wop_target o))) it = item_target st1 it) by reflexivity.
+    constructor.
+    + cbn. rewrite length_upd_nth, E1, E2. apply (l_len _ L).
+    + intros x it Hin. rewrite FO in Hin. rewrite IT. destruct (Nat.eq_dec x w) as [->|Hne].
+      * rewrite lock_of_set_lock_eq by assumption. exists (wop_target o). split; auto.
+      * rewrite lock_of_set_lock_neq by auto. destruct (E4 _ _ Hne Hin) as [Hin' Hit]. rewrite Hit.
+        unfold lock_of. rewrite E1. apply (l_feed _ L _ _ Hin').
+    + intros x y t Hne Hx Hy.
+      assert (LO : forall z, z <> w -> lock_of (set_lock st1 w (Some (wop_target o))) z = lock_of st z).
+      { intros z Hz. rewrite lock_of_set_lock_neq by auto. unfold lock_of. rewrite E1. reflexivity. }
+      destruct (Nat.eq_dec x w) as [->|Hxw]; destruct (Nat.eq_dec y w) as [->|Hyw]; try congruence.
+      * rewrite lock_of_set_lock_eq in Hx by assumption. inversion Hx; subst t. rewrite LO in Hy by auto.
+        eapply (may_lock_excl _ _ _ L Hm y); eauto.
+      * rewrite lock_of_set_lock_eq in Hy by assumption. inversion Hy; subst t. rewrite LO in Hx by auto.
+        eapply (may_lock_excl _ _ _ L Hm x); eauto.
+      * rewrite LO in Hx, Hy by auto. eapply (l_excl _ L x y); eauto.
+  - (* LFeed *)
+    destruct (nth_error (st_feeds st) w) as [[|it rest]|] eqn:Hw; try discriminate. inversion Hstep; subst st'. clear Hstep.
+    assert (Hlt : (w < List.length (st_feeds st))%nat) by (apply nth_error_Some; congruence).
+    constructor.
+    + cbn. unfold set_feed. rewrite length_upd_nth. apply (l_len _ L).
+    + intros x y Hin. change (lock_of _ x) with (lock_of st x).
+      assert (Hin' : In y (feed_of st x)).
+      { destruct (Nat.eq_dec w x) as [<-|Hne].
+        - rewrite feed_of_set_feed_eq in Hin by assumption. rewrite (nth_error_feed_of _ _ _ Hw). right. exact Hin.
+        - rewrite feed_of_set_feed_neq in Hin by auto. exact Hin. }
+      apply (l_feed _ L _ _ Hin').
+    + apply (l_excl _ L).
+  - (* LUnlock *)
+    destruct (nth_error (st_feeds st) w) as [[|]|] eqn:Hw; try discriminate.
+    destruct (lock_of st w) eqn:Hl; [|discriminate]. inversion Hstep; subst st'. clear Hstep.
+    assert (Hlt : (w < List.length (st_locks st))%nat).
+    { rewrite (l_len _ L). apply nth_error_Some. congruence. }
+    constructor.
+    + cbn. rewrite length_upd_nth. apply (l_len _ L).
+    + intros x it Hin. change (feed_of _ x) with (feed_of st x) in Hin. change (item_target _ it) with (item_target st it).
+      destruct (Nat.eq_dec x w) as [->|Hne].
+      * rewrite (nth_error_feed_of _ _ _ Hw) in Hin. contradiction.
+      * rewrite lock_of_set_lock_neq by auto. apply (l_feed _ L _ _ Hin).
+    + intros x y t Hne Hx Hy.
+      destruct (Nat.eq_dec x w) as [->|Hxw]; [rewrite lock_of_set_lock_eq in Hx by assumption; discriminate|].
+      destruct (Nat.eq_dec y w) as [->|Hyw]; [rewrite lock_of_set_lock_eq in Hy by assumption; discriminate|].
+      rewrite lock_of_set_lock_neq in Hx, Hy by auto. eapply (l_excl _ L x y); eauto.
+Qed.
+
+Lemma LInv_init nw subs : LInv (init nw subs).
+Proof.
+  constructor; cbn.
+  - rewrite !repeat_length. reflexivity.
+  - intros w it Hin. exfalso. unfold feed_of in Hin. cbn in Hin.
+    destruct (nth_in_or_default w (repeat (@nil item) nw) []) as [H|H].
+    + apply repeat_spec in H. rewrite H in Hin. contradiction.
+    + rewrite H in Hin. contradiction.
+  - intros w w' t _ Hw. exfalso. unfold lock_of in Hw. cbn in Hw.
+    destruct (nth_in_or_default w (repeat (@None string) nw) None) as [H|H].
+    + apply repeat_spec in H. rewrite H in Hw. discriminate.
+    + rewrite H in Hw. discriminate.
+Qed.
+
+Lemma step_Inv h st lb st' : strict h -> LInv st -> Inv h st -> step h st lb = Some st' -> Inv h st'.
+Proof.
+  intros Hs L I Hstep. assert (G := proj1 I). destruct lb as [w o|w|s|s|s|s p0|s|s|s|s|s|s|w]; unfold step in Hstep; cbn in Hstep.
+  - (* LWrite *)
+    destruct (nth_error (st_feeds st) w) as [[|]|] eqn:Hw; try discriminate.
+    destruct (may_lock st w (wop_target o)) eqn:Hm; [|discriminate].
+    destruct (write h st w o) as [[st1 r]|] eqn:Hwr; [|discriminate]. cbn in Hstep. inversion Hstep; subst st'.
+    assert (G' : GInv st1) by (eapply write_GInv; eauto; apply may_lock_others; auto).
+    split; [apply GInv_set_lock; auto|]. cbn. rewrite (write_subs _ _ _ _ _ _ Hwr). intros i sb Hi He.
+    apply (SInv_frame h st1); auto.
+    apply (write_SInv h st w o st1 r sb G G' Hw Hwr). apply (proj2 I _ _ Hi He).
   - (* LFeed *)
     destruct (nth_error (st_feeds st) w) as [[|it rest]|] eqn:Hw; try discriminate.
     inversion Hstep; subst st'. split; [apply GInv_feed; auto|].
@@ -1817,6 +2025,10 @@ Proof.
     destruct (s_end sb) eqn:He; [discriminate|].
     destruct (s_out sb) as [[]|] eqn:Ho; try discriminate; inversion Hf; subst sb';
       (eapply Inv_sub_step; eauto; cbn; discriminate).
+  - (* LUnlock *)
+    destruct (nth_error (st_feeds st) w) as [[|]|]; try discriminate.
+    destruct (lock_of st w); [|discriminate]. inversion Hstep; subst st'.
+    split; [apply GInv_set_lock; auto|]. cbn. intros i sb Hi He. apply (SInv_frame h st); auto. apply (proj2 I _ _ Hi He).
 Qed.
 
 (** ** The theorems of C04 *)
@@ -1835,13 +2047,26 @@ Proof.
   - unfold reg_match, regq. cbn. intros p H. discriminate.
 Qed.
 
-Lemma reachable_Inv h nw subs st : strict h -> reachable h nw subs st -> Inv h st.
+Lemma reachable_Inv_L h nw subs st : strict h -> reachable h nw subs st -> Inv h st /\ LInv st.
 Proof.
-  intros Hs [sch Hr]. revert Hr. generalize (Inv_init h nw subs). generalize (init nw subs).
-  induction sch as [|lb sch IH]; intros s0 I Hr; cbn in Hr.
-  - inversion Hr; subst. exact I.
-  - destruct (step h s0 lb) as [s1|] eqn:E; [|discriminate]. apply (IH s1); auto. eapply step_Inv; eauto.
+  intros Hs [sch Hr]. revert Hr. generalize (Inv_init h nw subs) (LInv_init nw subs). generalize (init nw subs).
+  unfold run. induction sch as [|lb sch IH]; intros s0 I L Hr; cbn in Hr.
+  - inversion Hr; subst. auto.
+  - fold (step h s0 lb) in Hr. destruct (step h s0 lb) as [s1|] eqn:E; [|discriminate]. apply (IH s1); auto.
+    + eapply step_Inv; eauto.
+    + eapply step_LInv; eauto. apply I.
 Qed.
+
+Theorem writers_exclusive h nw subs st :
+  strict h -> reachable h nw subs st ->
+  (forall w it, In it (feed_of st w) -> exists t, lock_of st w = Some t /\ item_target st it = Some t) /\
+  (forall w w' t, w <> w' -> lock_of st w = Some t -> lock_of st w' = Some t -> False).
+Proof.
+  intros Hs Hr. destruct (reachable_Inv_L _ _ _ _ Hs Hr) as [_ L]. split; [apply (l_feed _ L)|apply (l_excl _ L)].
+Qed.
+
+Lemma reachable_Inv h nw subs st : strict h -> reachable h nw subs st -> Inv h st.
+Proof. intros Hs Hr. apply (reachable_Inv_L _ _ _ _ Hs Hr). Qed.
 
 Theorem stream_invariant h nw subs st :
   strict h -> reachable h nw subs st ->
@@ -1910,8 +2135,8 @@ Theorem no_lost_update h nw subs st w p v ts st' :
     forall sb, In sb (st_subs st') -> reg_match sb p = true -> In (ILeaf l) (pending_feed st' sb).
 Proof.
   intros Hs Hr. destruct (reachable_Inv _ _ _ _ Hs Hr) as [G _]. revert G.
-  cbn. destruct (nth_error (st_feeds st) w) as [[|]|] eqn:Hw; try discriminate.
-  destruct (h_owt h && in_flight_other st w (target_of p)); [discriminate|].
+  unfold step. cbn. destruct (nth_error (st_feeds st) w) as [[|]|] eqn:Hw; try discriminate.
+  destruct (may_lock st w (target_of p)); [|discriminate].
   destruct (negb (target_ok p && star_free p)); [discriminate|].
   destruct (h_agree h && negb (agree_on st p)); [discriminate|].
   assert (Hlt : (w < List.length (st_feeds st))%nat) by (apply nth_error_Some; congruence).
@@ -1922,21 +2147,21 @@ Proof.
     unfold mult. unfold reg_match in Hr'. rewrite Hr'. reflexivity. }
   intros G. destruct (tlookup p (st_tree st)) as [l0|] eqn:Hl.
   - destruct (leaf_cont st l0) as [[v0 ts0]|] eqn:Hc; [|discriminate].
-    destruct (ts <? ts0); [cbn; intros [= <-] l Hin; rewrite (nth_error_feed_of _ _ _ Hw) in Hin; contradiction|].
-    destruct ((ts =? ts0) && (v =? v0)); [cbn; intros [= <-] l Hin; rewrite (nth_error_feed_of _ _ _ Hw) in Hin; contradiction|].
-    cbn. intros [= <-] l Hin. assert (Hin' := Hin). rewrite feed_of_set_feed_eq in Hin by assumption.
+    destruct (ts <? ts0); [cbn; intros [= <-] l Hin; change (In (ILeaf l) (feed_of st w)) in Hin; rewrite (nth_error_feed_of _ _ _ Hw) in Hin; contradiction|].
+    destruct ((ts =? ts0) && (v =? v0)); [cbn; intros [= <-] l Hin; change (In (ILeaf l) (feed_of st w)) in Hin; rewrite (nth_error_feed_of _ _ _ Hw) in Hin; contradiction|].
+    cbn. intros [= <-] l Hin. rewrite feed_of_set_lock in Hin. assert (Hin' := Hin). rewrite feed_of_set_feed_eq in Hin by assumption.
     destruct (h_ed h && (v =? v0)); [contradiction|]. destruct Hin as [[= <-]|[]].
     assert (Hlp := tlookup_leaf _ _ _ G Hl). unfold leaf_path in Hlp.
     destruct (nth_error (st_leaves st) l0) as [[p' c0]|] eqn:X; [|discriminate]. cbn in Hlp. inversion Hlp; subst p'.
     assert (L1 : leaf_path (mkState (upd_nth l0 (fun pc => (fst pc, (v, ts))) (st_leaves st)) (st_dels st) (st_tree st)
-                              (set_feed st w [ILeaf l0]) (st_subs st) (st_locks st)) l0 = Some p).
+                              (set_feed st w [ILeaf l0]) (st_subs st) (upd_nth w (fun _ => Some (target_of p)) (st_locks st))) l0 = Some p).
     { unfold leaf_path. cbn. rewrite nth_error_upd_nth_eq, X. reflexivity. }
     split; [exact L1|]. split; [unfold leaf_cont; cbn; rewrite nth_error_upd_nth_eq, X; reflexivity|].
     split; [exact Hl|]. intros sb _ Hrm. apply PF; auto.
-  - destruct (conflicts st p); [cbn; intros [= <-] l Hin; rewrite (nth_error_feed_of _ _ _ Hw) in Hin; contradiction|].
-    cbn. intros [= <-] l Hin. assert (Hin' := Hin). rewrite feed_of_set_feed_eq in Hin by assumption. destruct Hin as [[= <-]|[]].
+  - destruct (conflicts st p); [cbn; intros [= <-] l Hin; change (In (ILeaf l) (feed_of st w)) in Hin; rewrite (nth_error_feed_of _ _ _ Hw) in Hin; contradiction|].
+    cbn. intros [= <-] l Hin. rewrite feed_of_set_lock in Hin. assert (Hin' := Hin). rewrite feed_of_set_feed_eq in Hin by assumption. destruct Hin as [[= <-]|[]].
     assert (L1 : leaf_path (mkState (st_leaves st ++ [(p, (v, ts))]) (st_dels st) (st_tree st ++ [(p, List.length (st_leaves st))])
-                              (set_feed st w [ILeaf (List.length (st_leaves st))]) (st_subs st) (st_locks st)) (List.length (st_leaves st)) = Some p).
+                              (set_feed st w [ILeaf (List.length (st_leaves st))]) (st_subs st) (upd_nth w (fun _ => Some (target_of p)) (st_locks st))) (List.length (st_leaves st)) = Some p).
     { unfold leaf_path. cbn. rewrite nth_error_app2 by lia. rewrite Nat.sub_diag. reflexivity. }
     split; [exact L1|]. split; [unfold leaf_cont; cbn; rewrite nth_error_app2 by lia; rewrite Nat.sub_diag; reflexivity|].
     split; [cbn; rewrite tlookup_app, Hl; cbn; rewrite path_eqb_refl; reflexivity|].
@@ -1962,7 +2187,7 @@ Proof.
 Qed.
 
 Definition kf_path : path := ["t1"; "b"]%string.
-Definition kf_hyps : hyps := mkHyps false true false.
+Definition kf_hyps : hyps := mkHyps true false.
 Definition kf_schedule : list label :=
   [LWrite 0 (WUpd kf_path 1 1); LFeed 0;
    LReg 0; LRegDone 0; LWalkBegin 0; LVisit 0 kf_path; LWalkEnd 0; LSync 0;
@@ -1973,19 +2198,19 @@ Definition kf_schedule : list label :=
    LDeq 0; LRead 0; LSent 0; LDeq 0; LRead 0; LSent 0].
 Definition kf_subs : list (list path * bool) := [([["t1"]%string], false)].
 Definition kf_state : state :=
-  match run kf_hyps (init 2 kf_subs) kf_schedule with Some s => s | None => init 2 kf_subs end.
+  match run_gen false kf_hyps (init 2 kf_subs) kf_schedule with Some s => s | None => init 2 kf_subs end.
 
 Lemma stream_converges_refuted :
   exists h nw subs st,
-    h_agree h = true /\ h_owt h = false /\
-    reachable h nw subs st /\ quiescent st /\
+    h_agree h = true /\
+    reachable_unlocked h nw subs st /\ quiescent st /\
     exists sb p, nth_error (st_subs st) 0 = Some sb /\ s_end sb = false /\ s_uo sb = false /\
       sub_matches sb p = true /\
       s_sent sb = [RUpd p 1 1 0; RSync; RDel p 10; RUpd p 5 5 0] /\
       cache_at st p = None /\
       option_map (proj h) (replay_path p None (s_sent sb)) <> option_map (proj h) (cache_at st p).
 Proof.
-  exists kf_hyps, 2%nat, kf_subs, kf_state. split; [reflexivity|]. split; [reflexivity|].
+  exists kf_hyps, 2%nat, kf_subs, kf_state. split; [reflexivity|].
   split; [exists kf_schedule; vm_compute; reflexivity|].
   split; [apply quiescentb_sound; vm_compute; reflexivity|].
   eexists. exists kf_path. split; [vm_compute; reflexivity|].
@@ -1996,12 +2221,12 @@ Qed.
 (** Non-vacuity of [stream_invariant] / [stream_converges]: a reachable,
     quiescent state of the strict system with a live subscriber whose walk is
     done, a matching cached leaf, and a stream that delivered it. *)
-Definition ex_hyps : hyps := mkHyps true true true.
+Definition ex_hyps : hyps := mkHyps true true.
 Definition ex_schedule : list label :=
-  [LWrite 0 (WUpd kf_path 1 1); LFeed 0;
+  [LWrite 0 (WUpd kf_path 1 1); LFeed 0; LUnlock 0;
    LReg 0; LRegDone 0;
    LWrite 0 (WUpd kf_path 2 2);               (* lands between registration and walk *)
-   LWalkBegin 0; LVisit 0 kf_path; LWalkEnd 0; LSync 0; LFeed 0;
+   LWalkBegin 0; LVisit 0 kf_path; LWalkEnd 0; LSync 0; LFeed 0; LUnlock 0;
    LDeq 0; LRead 0; LSent 0; LDeq 0; LRead 0; LSent 0].
 Definition ex_state : state :=
   match run ex_hyps (init 1 kf_subs) ex_schedule with Some s => s | None => init 1 kf_subs end.
@@ -2012,7 +2237,7 @@ Example stream_converges_example :
     walk_done sb = true /\ sub_matches sb kf_path = true /\
     s_sent sb = [RUpd kf_path 2 2 1; RSync] /\ cache_at ex_state kf_path = Some (2, 2).
 Proof.
-  split; [split; reflexivity|]. split; [exists ex_schedule; vm_compute; reflexivity|].
+  split; [reflexivity|]. split; [exists ex_schedule; vm_compute; reflexivity|].
   split; [apply quiescentb_sound; vm_compute; reflexivity|].
   eexists. split; [vm_compute; reflexivity|].
   split; [vm_compute; reflexivity|]. split; [vm_compute; reflexivity|]. split; [vm_compute; reflexivity|].
@@ -2123,11 +2348,14 @@ Qed.
 
 Lemma step_YAll h st lb st' : GInv st -> step h st lb = Some st' -> YAll st -> YAll st'.
 Proof.
-  intros G Hstep Y. destruct lb as [w o|w|s|s|s|s p0|s|s|s|s|s|s]; cbn in Hstep.
+  intros G Hstep Y. destruct lb as [w o|w|s|s|s|s p0|s|s|s|s|s|s|w]; unfold step in Hstep; cbn in Hstep.
   - (* LWrite: the stores only grow *)
     destruct (nth_error (st_feeds st) w) as [[|]|] eqn:Hw; try discriminate.
-    destruct (h_owt h && in_flight_other st w (wop_target o)); [discriminate|].
-    destruct (write h st w o) as [[st1 r]|] eqn:Hwr; [|discriminate]. cbn in Hstep. inversion Hstep; subst st1.
+    destruct (may_lock st w (wop_target o)); [|discriminate].
+    destruct (write h st w o) as [[st1 r]|] eqn:Hwr; [|discriminate]. cbn in Hstep.
+    assert (YL : YAll st1 -> YAll st').
+    { inversion Hstep; subst st'. intros Y1 i sb Hi He. destruct (Y1 i sb Hi He) as [A0 A B C]. constructor; auto. }
+    apply YL. clear YL Hstep st'. rename st1 into st'.
     assert (E : forall l p, leaf_path st l = Some p -> leaf_path st' l = Some p).
     { intros l p Hp. revert Hwr. destruct o as [p1 v ts|d ts order|d]; cbn.
       - destruct (negb _); [discriminate|]. destruct (h_agree h && negb _); [discriminate|].
@@ -2290,6 +2518,10 @@ Proof.
     destruct (s_end sb) eqn:He; [discriminate|].
     destruct (s_out sb) as [[]|] eqn:Ho; try discriminate; inversion Hf; subst sb';
       (eapply YAll_sub_step; eauto; cbn; discriminate).
+  - (* LUnlock *)
+    destruct (nth_error (st_feeds st) w) as [[|]|]; try discriminate.
+    destruct (lock_of st w); [|discriminate]. inversion Hstep; subst st'.
+    intros i sb Hi He. destruct (Y i sb Hi He) as [A0 A B C]. constructor; auto.
 Qed.
 
 Lemma YAll_init nw subs : YAll (init nw subs).
@@ -2305,11 +2537,12 @@ Qed.
 
 Lemma reachable_YAll h nw subs st : strict h -> reachable h nw subs st -> YAll st.
 Proof.
-  intros Hs [sch Hr]. revert Hr. generalize (Inv_init h nw subs) (YAll_init nw subs). generalize (init nw subs).
-  induction sch as [|lb sch IH]; intros s0 I Y Hr; cbn in Hr.
+  intros Hs [sch Hr]. revert Hr. generalize (Inv_init h nw subs) (LInv_init nw subs) (YAll_init nw subs). generalize (init nw subs).
+  unfold run. induction sch as [|lb sch IH]; intros s0 I L Y Hr; cbn in Hr.
   - inversion Hr; subst. exact Y.
-  - destruct (step h s0 lb) as [s1|] eqn:E; [|discriminate]. apply (IH s1); auto.
+  - fold (step h s0 lb) in Hr. destruct (step h s0 lb) as [s1|] eqn:E; [|discriminate]. apply (IH s1); auto.
     + eapply step_Inv; eauto.
+    + eapply step_LInv; eauto. apply I.
     + eapply step_YAll; eauto. apply I.
 Qed.
 
